@@ -313,6 +313,8 @@ func wildOracle(prop string) func(info *runInfo, res *verifsim.Result) {
 					res.Violate(prop+".model", "model", "RA #%d: %s", w.seq, m.fail)
 				case m.fail == "address listing failed" && (prop == "C13" || prop == "C14"):
 					res.Violate(prop+".fail", "listing-failed", "RA #%d to %s at %s was transmitted although the address listing of that build failed (listings: %v)", w.seq, w.dst, ms(w.t), in.addr)
+				case m.fail == "route listing failed" && prop == "C15":
+					res.Violate("C15.fail", "listing-failed", "RA #%d to %s at %s was transmitted although a loopback route listing of that build failed (listings: %v): the expansion was made over an incomplete list", w.seq, w.dst, ms(w.t), in.routes)
 				case strings.HasPrefix(m.fail, "no eligible") && prop == "C14":
 					res.Violate("C14.fail", "no-eligible", "RA #%d to %s at %s was transmitted although no address is eligible for the RDNSS wildcard (listings: %v)", w.seq, w.dst, ms(w.t), in.addr)
 				}
